@@ -10,6 +10,8 @@
 // (index < count), membership is decided by reading the voxel back, neighbours by brute-force long-double
 // distances over the stored points (sorted along the longest axis of the box to bound the work).
 #include "vh.hpp"
+#include <omp.h>
+#include <atomic>
 #include "uspg_3d.hpp"
 #include "uspg_4d.hpp"
 #include "vec3.hpp"
@@ -399,6 +401,19 @@ Out run_case(const Spec& s) {
         o.bin("queries", queries); if (truncated) o.bin("cases_with_truncated_queries");
         o.nt = !placed.empty() && queries > 0;
     }
+    // ---- the same queries asked by several threads at once: a query does not change the grid, so it must return what it returns alone -------------------
+    { const int nt = omp_get_max_threads(); if (nt > 1 && o.open()) {
+        std::vector<size_t> qs; for (size_t i = 0; i < NP && qs.size() < 400; i++) if (usable[i]) qs.push_back(i);
+        auto fp = [&](size_t i) { auto nbh = g.get_neighborhood(idx[i][0], idx[i][1], idx[i][2]); std::vector<long> v; for (const T& x : nbh) v.push_back((long)x); std::sort(v.begin(), v.end()); uint64_t h = v.size(); for (long x : v) h = hash_combine(h, (uint64_t)x); return h; };
+        std::vector<uint64_t> alone(qs.size()); for (size_t k = 0; k < qs.size(); k++) alone[k] = fp(qs[k]);
+        std::atomic<long> wrong{0};
+        for (int round = 0; round < 3; round++) {
+#pragma omp parallel for schedule(dynamic, 4)
+            for (long k = 0; k < (long)qs.size(); k++) if (fp(qs[(size_t)k]) != alone[(size_t)k]) wrong++;
+        }
+        o.bin("concurrent_queries", 3 * (long)qs.size());
+        if (wrong.load() && !qs.empty()) o.viol("concurrent_queries_differ", std::to_string(wrong.load()) + " of " + std::to_string(3 * qs.size()) + " neighbourhood queries asked by " + std::to_string(nt) + " threads at once returned another set of objects than the same query asked alone", pt_json(s, s.pts[qs[0]], idx[qs[0]], nb));
+    } }
     // ---- interleaved use: query, place (by voxel id as the contact model does, or by position), query the same point again --------------
     // a neighbourhood query must reflect every object stored so far, whatever the order of queries and placements
     if constexpr (!single_slot((G*)nullptr)) { if (o.open()) {
